@@ -251,6 +251,9 @@ def oracle_C04(results, metas, st):
         if not sd:
             continue
         sd = sd[-1][1]
+        if not info.get('poly'):
+            # table integrands are indexed by the per-rank call counter: the values (and a target-precision stop) differ legitimately
+            continue
         if chk_gens(sd) != chk_gens(dumps[0]):
             out.append(viol('generators stored by the MPI run %s differ from the serial run %s (world %d, calls %s)' %
                             (chk_gens(dumps[0]), chk_gens(sd), P, calls), [c, sr['case']])); continue
